@@ -229,6 +229,26 @@ def check_levels(case, acc):
             else:
                 continue
             break
+    # levels= that does not cover the data (a level left out; the right labels as text for an integer column): refused - or, if
+    # accepted, every column still is the indicator of the level its label names
+    if n > 1:
+        vi = [base.index(v_) + 1 for v_ in col]
+        dfi = pd.DataFrame({"v": col, "vi": vi, "y": np.arange(len(col)) * 1.0})
+        for what, call, ns, colname, want_of in (
+            ("a level of the data left out", "C(v, levels=sub)", {"sub": lv[:-1]}, "v", lambda l: np.array([1.0 if v_ == l else 0.0 for v_ in col])),
+            ("a level of the data left out", "T(v, levels=sub)", {"sub": lv[1:]}, "v", lambda l: np.array([1.0 if v_ == l else 0.0 for v_ in col])),
+            ("text labels for an integer column", "C(vi, levels=txt)", {"txt": [str(i + 1) for i in range(n)]}, "vi", lambda l: np.array([1.0 if str(v_) == l else 0.0 for v_ in vi])),
+        ):
+            acc.calls += 1
+            try:
+                dmx = design_matrices(f"y ~ 0 + {call}", dfi, extra_namespace=ns)
+            except Exception:
+                continue  # refused: fine
+            Xs = np.asarray(dmx.common.design_matrix, dtype=float)
+            labs_ = list(dmx.common.as_dataframe().columns)
+            okc = Xs.shape[1] == len(labs_) and all(l.startswith(call + "[") and np.array_equal(Xs[:, j], want_of(l[len(call) + 1 : -1])) for j, l in enumerate(labs_))
+            if not okc:
+                problems.append(("levels-cover-the-data", f"'0 + {call}' with {ns} ({what}) was accepted, but its columns {labs_} are not the indicators of the levels they name"))
     # a later frame with a level the design has not seen (mode 'silent'): the rows of seen levels keep their coding, the
     # unseen row is zero in every column of the factor
     if n > 1:
